@@ -1,4 +1,6 @@
 import P9Model.Driver.K1
+import P9Model.Driver.KVer
+import P9Model.Driver.KIO
 /-!
 Line-protocol driver: reads `<mode> key=value …` lines on stdin, prints the model's
 prediction for each on stdout (one line per line). Core library only (compiled `lean_exe`).
@@ -10,6 +12,12 @@ def step (line : String) : String :=
   match toks.head? with
   | some ("k1", _) => k1 toks
   | some ("k2", _) => k2 toks
+  | some ("kparse", _) => kparse toks
+  | some ("kvstr", _) => kvstr toks
+  | some ("ktv", _) => ktv toks
+  | some ("kchunk", _) => kchunk toks
+  | some ("kneg", _) => kneg toks
+  | some ("klfs", _) => klfs toks
   | _ => "bad-op"
 
 partial def loop (h : IO.FS.Stream) (o : IO.FS.Stream) : IO Unit := do
